@@ -148,8 +148,8 @@ BASE_FORMATS = ('toml', 'setupcfg', 'ini')
 
 
 def lines_ok(v: Any) -> bool:
-    """one-item-per-line syntax is only defined for lists of >= 2 items that configparser keeps as written"""
-    return isinstance(v, list) and len(v) >= 2 and all(i and i == i.strip() and i[0] not in '#;[\'"' and '\n' not in i for i in v)
+    """one-item-per-line syntax (the value starts on the line after `key =`): lists of >= 1 items that configparser keeps as written"""
+    return isinstance(v, list) and len(v) >= 1 and all(i and i == i.strip() and i[0] not in '#;[\'"' and '\n' not in i for i in v)
 
 
 def file_for(parser: Any, a: Any, v: Any, fmt: str) -> Tuple[str, str]:
@@ -243,6 +243,53 @@ def judge_override(dest: str, res: Dict[str, Any]) -> None:
                 if isinstance(seq, dict) and (not isinstance(gotf, dict) or gotf.get(dest) != seq.get(dest)):
                     res['violations'].append(core.violation(f'accumulate-order/{fmt}', f'{dest}: list {items} in {fname} -> {gotf.get(dest) if isinstance(gotf, dict) else gotf!r}, command line {seq.get(dest)!r}',
                                                             {'kind': 'override', 'dest': dest, 'fmt': fmt}))
+
+
+def judge_spellings(dest: str, res: Dict[str, Any]) -> None:
+    """One file sets the same option under two accepted spellings of its key (`key`, `--key`, an alias such as add-module): that means what
+    the same two options mean, in the same order, on the command line (lists accumulate, a single value: the later one)."""
+    import toml
+    parser = get_parser()
+    a = next(x for x in parser._actions if x.dest == dest)
+    if isinstance(a, (argparse._StoreTrueAction, argparse._StoreFalseAction, argparse._CountAction)):
+        return
+    keys = list(parser.get_possible_config_keys(a))
+    good = []
+    for v in values(a):
+        if isinstance(v, list) and not v:
+            continue
+        r, _ = load(None, '', cli_args(a, v))
+        if isinstance(r, dict):
+            good.append(v)
+    if len(good) < 2:
+        return
+    v1, v2 = good[0], good[1]
+    for k1, k2 in itertools.permutations(keys, 2):
+        o1 = k1 if k1.startswith('--') else '--' + k1
+        o2 = k2 if k2.startswith('--') else '--' + k2
+
+        def argv(o: str, v: Any) -> List[str]:
+            return [o + '=' + i for i in v] if isinstance(v, list) else [o + '=' + v]
+        cli, _ = load(None, '', argv(o1, v1) + argv(o2, v2))
+        if not isinstance(cli, dict) or dest not in cli:
+            continue
+        for fmt in BASE_FORMATS:
+            fname, section = FORMATS[fmt]
+            if fmt == 'toml':
+                text = f'[{section}]\n' + toml.dumps({k1: v1}) + toml.dumps({k2: v2})
+            else:
+                def val(v: Any) -> str:
+                    return (repr(v) if isinstance(v, list) or v != v.strip() or v == '' or v[:1] in '["\'' or '#' in v or ';' in v else v).replace('%', '%%')
+                text = f'[{section}]\n{k1} = {val(v1)}\n{k2} = {val(v2)}\n'
+            got, _ = load(fname, text, [])
+            res['evals'] += 1
+            res['nontrivial'].add(core.h('spellings', dest, k1, k2, fmt))
+            case = {'kind': 'spellings', 'dest': dest}
+            if not isinstance(got, dict):
+                res['violations'].append(core.violation(f'two-spellings-rejected/{fmt}/{type(a).__name__.strip("_")}', f'{dest}: {fname} with {k1!r} then {k2!r} -> {got}; file:\n{text}', case))
+            elif got.get(dest) != cli.get(dest):
+                res['violations'].append(core.violation(f'two-spellings-differ/{fmt}/{type(a).__name__.strip("_")}',
+                                                        f'{dest}: {fname} with {k1!r} = {v1!r} then {k2!r} = {v2!r} -> {got.get(dest)!r}, the command line {o1} {o2} gives {cli.get(dest)!r}', case))
 
 
 UNKNOWN_KEYS = ['no-such-option', 'nosuchoption', 'project_name', 'Project-Name', 'PROJECT-NAME', 'DOCFORMAT', 'Verbose', 'html-outputs', 'privacyy',
@@ -468,6 +515,8 @@ def jobs(tier: str) -> Iterable[Tuple[str, Any]]:
         yield ('options', ('option', d))
     for d in dests:
         yield ('override-accumulate', ('override', d))
+    for d in dests:
+        yield ('two-spellings-one-file', ('spellings', d))
     for fmt in BASE_FORMATS:
         yield ('unknown-keys', ('unknown', fmt))
     for first in HOPS:
@@ -491,6 +540,8 @@ def run_job(job: Any, tier: str) -> Dict[str, Any]:
         judge_option(job[1], res)
     elif job[0] == 'override':
         judge_override(job[1], res)
+    elif job[0] == 'spellings':
+        judge_spellings(job[1], res)
     elif job[0] == 'unknown':
         judge_unknown(job[1], res)
     elif job[0] == 'history':
@@ -521,6 +572,8 @@ def replay(case: Dict[str, Any]) -> List[Dict[str, Any]]:
         res['violations'] = [v for v in res['violations'] if v['case'].get('key') == case['key']]
     elif case['kind'] == 'history':
         judge_history(case['hist'], res)
+    elif case['kind'] == 'spellings':
+        judge_spellings(case['dest'], res)
     else:
         s = case['s']
         judge_quoting(tuple(s), len(s), res)
